@@ -10,7 +10,7 @@ from vfw.core import Violation, must_return
 from vfw.model import transform as TM
 
 PROPERTY = "C08"
-SIZES = {"quick": 3200, "thorough": 120000}
+SIZES = {"quick": 8000, "thorough": 120000}
 RULE = (
     "Hypothesis draws column length 2-7, 0-2 leading dims, one strictly monotonic finite target_data profile per column with a "
     "drawn direction per column (mixed directions in one call) or a shared / lower-dimensional profile, 0-6 target levels in "
